@@ -119,6 +119,149 @@ def Cache.init (reqs : List (List Nat)) : Cache :=
 def reduceResult (n : Nat) (owner : Nat → Nat) (items : List Nat) (f : Nat → Int) : Int :=
   ((List.range n).map fun t => ((items.filter fun i => owner i == t).map f).sum).sum
 
+/-! ## per-thread accumulators that outlive a pass
+
+`BackProjectorByBin::_local_output_image_sptrs` (BackProjectorByBin.cxx): `set_up` (:76) resizes the vector to the number
+of threads of a parallel region, keeping the images that exist; `start_accumulating_in_new_target` (:306) zeroes every
+existing image; `back_project(viewgrams)` (:271) creates / adds to the image of the calling thread;
+`get_output` (:330) sums every existing image.  The vector outlives a pass, a change of the number of threads
+(`stir::set_num_threads`) and a second `set_up`.  An image is abstracted to one `Int`. -/
+
+structure Accum where
+  slots : List (Option Int)          -- `none`: null pointer (no thread filled anything in yet)
+  deriving Repr, DecidableEq
+
+def Accum.new : Accum := { slots := [] }
+
+/-- `_local_output_image_sptrs.resize(n, null)` (BackProjectorByBin.cxx:82) -/
+def Accum.setUp (a : Accum) (n : Nat) : Accum :=
+  { slots := a.slots.take n ++ List.replicate (n - a.slots.length) none }
+
+/-- `start_accumulating_in_new_target` (:314): every image that exists is filled with 0 -/
+def Accum.start (a : Accum) : Accum := { slots := a.slots.map (Option.map fun _ => 0) }
+
+def Accum.valueAt (a : Accum) (t : Nat) : Int :=
+  match a.slots[t]? with
+  | some (some x) => x
+  | _ => 0
+
+/-- thread `t` adds `v` to its image (:277-281 and `actual_back_project`); `none`: index outside the vector, which the C++ does
+    not check (undefined behaviour: more threads than the vector was sized for) -/
+def Accum.add (a : Accum) (t : Nat) (v : Int) : Option Accum :=
+  if t < a.slots.length then some { slots := a.slots.set t (some (a.valueAt t + v)) } else none
+
+def Accum.addAll (a : Accum) : List (Nat × Int) → Option Accum
+  | [] => some a
+  | w :: r => (a.add w.1 w.2).bind (·.addAll r)
+
+/-- one pass: `start_accumulating_in_new_target`, then the work items `(thread, contribution)` in any order -/
+def Accum.pass (a : Accum) (work : List (Nat × Int)) : Option Accum := a.start.addAll work
+
+/-- `get_output` (:339): the sum over every image that exists -/
+def Accum.output (a : Accum) : Int := (a.slots.map (·.getD 0)).sum
+
+/-- the slots `get_output` adds (the `bp.reduce` events) -/
+def Accum.live (a : Accum) : List Nat :=
+  (List.range a.slots.length).filter fun i => match a.slots[i]? with | some (some _) => true | _ => false
+
+inductive AccOp where
+  | setUp (n : Nat)
+  | pass (work : List (Nat × Int))
+  deriving Repr
+
+def Accum.run (a : Accum) : List AccOp → Option Accum
+  | [] => some a
+  | .setUp n :: r => (a.setUp n).run r
+  | .pass w :: r => (a.pass w).bind (·.run r)
+
+/-- a variant for comparison that zeroes only the images of the first `m` threads ("only the threads that can take part") -/
+def Accum.startFirst (a : Accum) (m : Nat) : Accum :=
+  { slots := (a.slots.take m).map (Option.map fun _ => 0) ++ a.slots.drop m }
+
+/-! ## number of threads (num_threads.cxx) -/
+
+/-- `get_default_num_threads` (num_threads.cxx:70): `nprocs` = `omp_get_num_procs()`, `env` = `atoi(getenv("OMP_NUM_THREADS"))`
+    when the variable is set.  `floor(nprocs * .9)` in double arithmetic is `9 * nprocs / 10` for every non-negative `int`
+    (the double nearest to 0.9 lies above 0.9 by 2.2e-17). -/
+def getDefaultNumThreads (nprocs : Int) (env : Option Int) : Int :=
+  match env with
+  | some e => e
+  | none => if nprocs == 1 then 1 else max (Int.tdiv (9 * nprocs) 10) 2
+
+/-- libgomp's `omp_set_num_threads`: `nthreads_var = n > 0 ? n : 1`; afterwards `omp_get_max_threads()` returns it -/
+def ompSetNumThreads (n : Int) : Int := if n > 0 then n else 1
+
+structure NumThreads where
+  alreadySetOnce : Bool             -- the function-local static of `set_num_threads`
+  maxThreads : Int                  -- what `omp_get_max_threads()` = `get_max_num_threads()` returns
+  deriving Repr, DecidableEq
+
+/-- `set_num_threads(n)` (num_threads.cxx:43); `dflt` = what `get_default_num_threads()` returns at that moment.
+    `none`: `n = 0`, nothing was set before and the default is 0 (`OMP_NUM_THREADS` empty or not a number): the function and
+    `set_default_num_threads` call each other without end (observed: stack overflow). -/
+def NumThreads.set (s : NumThreads) (n : Int) (dflt : Int) : Option NumThreads :=
+  if n == 0 then
+    if !s.alreadySetOnce then
+      if dflt == 0 then none else some { alreadySetOnce := true, maxThreads := ompSetNumThreads dflt }
+    else some s
+  else some { alreadySetOnce := true, maxThreads := ompSetNumThreads n }
+
+/-- `set_default_num_threads()` (num_threads.cxx:88) = `set_num_threads(get_default_num_threads())` -/
+def NumThreads.setDefault (s : NumThreads) (dflt : Int) : Option NumThreads := s.set dflt dflt
+
+/-! ## scatter simulation: detector numbering in order of first use, caches indexed by that number
+
+`ScatterSimulation::find_in_detection_points_vector` (scatter_detection_modelling.cxx:33, inside
+`critical(SCATTERESTIMATIONFINDDETECTIONPOINTS)`): a detector gets the next free number when it is met for the first time;
+with `schedule(dynamic)` the order in which detectors are met depends on the schedule.
+`cached_*_integral_scattpoint_det[scatter point][detector number]` (cached_single_scatter_integrals.cxx:73, atomic read /
+compute / atomic write).  `set_template_proj_data_info` (ScatterSimulation.cxx:725) forgets the numbering and removes the caches.
+A request `(sp, d)` is one atomic step here (the numbering is append-only during a run and two threads that compute the same
+entry write the same value). -/
+
+structure ScCache where
+  dets : List Nat                            -- `detection_points_vector`: detectors in the order of their numbers
+  cache : List ((Nat × Nat) × Int)           -- (scatter point, detector number) ↦ cached value
+  deriving Repr, DecidableEq
+
+def ScCache.init : ScCache := { dets := [], cache := [] }
+
+/-- `find_in_detection_points_vector`: the number of detector `d`, appended if new -/
+def ScCache.find (s : ScCache) (d : Nat) : ScCache × Nat :=
+  match s.dets.idxOf? d with
+  | some k => (s, k)
+  | none => ({ s with dets := s.dets ++ [d] }, s.dets.length)
+
+/-- `cached_integral_over_activity_image_between_scattpoint_det(sp, find(d))`: the cached value if there is one, else
+    `spec sp d` (the integral from scatter point `sp` to the detector stored under that number), which is then cached -/
+def ScCache.get (spec : Nat → Nat → Int) (s : ScCache) (sp d : Nat) : ScCache × Int :=
+  let (s1, k) := s.find d
+  match s1.cache.lookup (sp, k) with
+  | some v => (s1, v)
+  | none => ({ s1 with cache := ((sp, k), spec sp (s1.dets.getD k 0)) :: s1.cache }, spec sp (s1.dets.getD k 0))
+
+/-- `set_template_proj_data_info`: `detection_points_vector.clear()` and both caches removed -/
+def ScCache.setTemplate (_ : ScCache) : ScCache := ScCache.init
+
+/-- a variant for comparison that forgets the numbering but keeps the caches ("the size is still right") -/
+def ScCache.setTemplateKeepCache (s : ScCache) : ScCache := { s with dets := [] }
+
+inductive ScOp where
+  | get (sp d : Nat)
+  | setTemplate
+  deriving Repr
+
+/-- run a history; the answers of the `get`s in order -/
+def ScCache.run (spec : Nat → Nat → Int) (s : ScCache) : List ScOp → List Int
+  | [] => []
+  | .get sp d :: r => let (s', v) := s.get spec sp d; v :: ScCache.run spec s' r
+  | .setTemplate :: r => ScCache.run spec s.setTemplate r
+
+def ScCache.runKeepCache (spec : Nat → Nat → Int) (s : ScCache) : List ScOp → List Int
+  | [] => []
+  | .get sp d :: r => let (s', v) := s.get spec sp d; v :: ScCache.runKeepCache spec s' r
+  | .setTemplate :: r => ScCache.runKeepCache spec s.setTemplateKeepCache r
+
 /-! ## validator for event traces recorded from the implementation
 
 An event is `(thread, site, key, value)`.  Events emitted inside a critical section / under a lock appear in
@@ -191,5 +334,15 @@ def validateWork (site : String) (expected : Nat) (evs : List Ev) : Option Strin
   if ks.length != expected then some s!"{site}: {ks.length} work items processed, expected {expected}"
   else if ks.eraseDups.length != ks.length then some s!"{site}: a work item was processed twice"
   else none
+
+/-- after `stir::set_num_threads(T)` no event comes from a thread `≥ T`, and the work items report a thread number `< T` -/
+def validateThreads (bound : Nat) (evs : List Ev) : Option String :=
+  if bound == 0 then none
+  else
+    evs.findSome? fun e =>
+      if e.tid ≥ bound then some s!"{e.site}: event from thread {e.tid} although only {bound} threads were asked for"
+      else if (e.site == "bp.work" || e.site == "fp.work" || e.site == "dist.work") && (e.val < 0 || e.val.toNat ≥ bound) then
+        some s!"{e.site}: work item done by thread {e.val} although only {bound} threads were asked for"
+      else none
 
 end StirVerif.C18
